@@ -3,7 +3,20 @@
 package c02
 
 import (
+	"bytes"
 	"crypto"
+	"io"
+
+	"github.com/cloudflare/circl/sign/dilithium/mode2"
+	"github.com/cloudflare/circl/sign/dilithium/mode3"
+	"github.com/cloudflare/circl/sign/dilithium/mode5"
+	"github.com/cloudflare/circl/sign/ed25519"
+	"github.com/cloudflare/circl/sign/ed448"
+	"github.com/cloudflare/circl/sign/eddilithium2"
+	"github.com/cloudflare/circl/sign/eddilithium3"
+	"github.com/cloudflare/circl/sign/mldsa/mldsa44"
+	"github.com/cloudflare/circl/sign/mldsa/mldsa65"
+	"github.com/cloudflare/circl/sign/mldsa/mldsa87"
 	"reflect"
 	"strings"
 	"testing"
@@ -224,6 +237,93 @@ func TestVerifGeneratedKeys(t *testing.T) {
 			}
 		}
 	})
+	// package-level GenerateKey(rand): the seed is read from the supplied
+	// reader, which may deliver it in pieces; the key pair must be the one
+	// derived from exactly those seed octets
+	lib.Mandatory("genkey:short-read-randomness")
+	type gk struct {
+		name string
+		seed int
+		gen  func(rd io.Reader) ([]byte, error)
+		der  func(seed []byte) []byte
+	}
+	mb := func(k interface{ MarshalBinary() ([]byte, error) }) []byte { b, _ := k.MarshalBinary(); return b }
+	gks := []gk{
+		{"ed25519", ed25519.SeedSize, func(rd io.Reader) ([]byte, error) { _, sk, err := ed25519.GenerateKey(rd); return mb(sk), err },
+			func(seed []byte) []byte { return mb(ed25519.NewKeyFromSeed(seed)) }},
+		{"ed448", ed448.SeedSize, func(rd io.Reader) ([]byte, error) { _, sk, err := ed448.GenerateKey(rd); return mb(sk), err },
+			func(seed []byte) []byte { return mb(ed448.NewKeyFromSeed(seed)) }},
+		{"mldsa44", mldsa44.SeedSize, func(rd io.Reader) ([]byte, error) { _, sk, err := mldsa44.GenerateKey(rd); return mb(sk), err },
+			func(seed []byte) []byte {
+				var s [32]byte
+				copy(s[:], seed)
+				_, sk := mldsa44.NewKeyFromSeed(&s)
+				return mb(sk)
+			}},
+		{"mldsa65", mldsa65.SeedSize, func(rd io.Reader) ([]byte, error) { _, sk, err := mldsa65.GenerateKey(rd); return mb(sk), err },
+			func(seed []byte) []byte {
+				var s [32]byte
+				copy(s[:], seed)
+				_, sk := mldsa65.NewKeyFromSeed(&s)
+				return mb(sk)
+			}},
+		{"mldsa87", mldsa87.SeedSize, func(rd io.Reader) ([]byte, error) { _, sk, err := mldsa87.GenerateKey(rd); return mb(sk), err },
+			func(seed []byte) []byte {
+				var s [32]byte
+				copy(s[:], seed)
+				_, sk := mldsa87.NewKeyFromSeed(&s)
+				return mb(sk)
+			}},
+		{"mode2", mode2.SeedSize, func(rd io.Reader) ([]byte, error) { _, sk, err := mode2.GenerateKey(rd); return mb(sk), err },
+			func(seed []byte) []byte {
+				var s [32]byte
+				copy(s[:], seed)
+				_, sk := mode2.NewKeyFromSeed(&s)
+				return mb(sk)
+			}},
+		{"mode3", mode3.SeedSize, func(rd io.Reader) ([]byte, error) { _, sk, err := mode3.GenerateKey(rd); return mb(sk), err },
+			func(seed []byte) []byte {
+				var s [32]byte
+				copy(s[:], seed)
+				_, sk := mode3.NewKeyFromSeed(&s)
+				return mb(sk)
+			}},
+		{"mode5", mode5.SeedSize, func(rd io.Reader) ([]byte, error) { _, sk, err := mode5.GenerateKey(rd); return mb(sk), err },
+			func(seed []byte) []byte {
+				var s [32]byte
+				copy(s[:], seed)
+				_, sk := mode5.NewKeyFromSeed(&s)
+				return mb(sk)
+			}},
+		{"eddilithium2", eddilithium2.SeedSize, func(rd io.Reader) ([]byte, error) { _, sk, err := eddilithium2.GenerateKey(rd); return mb(sk), err },
+			func(seed []byte) []byte {
+				var s [32]byte
+				copy(s[:], seed)
+				_, sk := eddilithium2.NewKeyFromSeed(&s)
+				return mb(sk)
+			}},
+		{"eddilithium3", eddilithium3.SeedSize, func(rd io.Reader) ([]byte, error) { _, sk, err := eddilithium3.GenerateKey(rd); return mb(sk), err },
+			func(seed []byte) []byte {
+				var s [57]byte
+				copy(s[:], seed)
+				_, sk := eddilithium3.NewKeyFromSeed(&s)
+				return mb(sk)
+			}},
+	}
+	for gi, g := range gks {
+		for i := 0; i < 3; i++ {
+			seed := lib.NewRng("c02/genkey/short/"+g.name, i).Bytes(g.seed)
+			want := g.der(seed)
+			got, err := g.gen(&lib.ShortReader{R: bytes.NewReader(seed)})
+			got2, err2 := g.gen(bytes.NewReader(seed))
+			lib.Count("genkey:short-read-randomness")
+			lib.CaseS("genkey-short", g.name, string(rune('0'+gi)), string(rune('0'+i)))
+			if err != nil || err2 != nil || !lib.Eq(got, want) || !lib.Eq(got2, want) {
+				lib.Violation("C02:generated-key-is-not-derived-from-the-octets-read:"+g.name, mon, lib.D("seed", seed, "err", err, "err_whole", err2,
+					"short_reads_ok", lib.Eq(got, want), "whole_read_ok", lib.Eq(got2, want)))
+			}
+		}
+	}
 	for _, s := range all {
 		for _, nm := range []string{s.Name(), strings.ToLower(s.Name()), strings.ToUpper(s.Name())} {
 			got := schemes.ByName(nm)
